@@ -156,11 +156,15 @@ class TrioEventLoop(EventLoop):
             # not running (trio's cancel scopes cannot be queried then): the task has not
             # been started yet, so drop it from the pending ones
             pending = [entry for entry in self._pending_tasks if entry[1] is not scope]
-            existed = len(pending) < len(self._pending_tasks)
-            self._pending_tasks[:] = pending
-            return existed
-        existed = not scope.cancel_called
-        scope.cancel()
+            if len(pending) < len(self._pending_tasks):
+                self._pending_tasks[:] = pending
+                return True
+            # not pending: a task of a run that is over, or one removed before
+        try:
+            existed = not scope.cancel_called
+            scope.cancel()
+        except RuntimeError:  # trio cannot tell outside a run: the task was removed before it ever started
+            return False
         return existed
 
     def run(self) -> None:
